@@ -79,6 +79,7 @@ type Op struct {
 
 type Case struct {
 	Kind      string
+	Shared    bool // stores of this history share ONE *DiskCache handle (as the goroutines of one runner do)
 	PremiseOK bool
 	Ops       []Op
 	Stray     []string // unexpected files found in the directory at the end
@@ -160,7 +161,7 @@ type writer struct {
 	key  int
 }
 
-func startWriter(dir string, id ID, data []byte) *writer {
+func startWriter(dir string, shared *cache.DiskCache, id ID, data []byte) *writer {
 	w := &writer{rd: &ctlReader{data: data, blocked: make(chan struct{}), resume: make(chan bool)}, done: make(chan string, 1)}
 	go func() {
 		defer func() {
@@ -172,7 +173,10 @@ func startWriter(dir string, id ID, data []byte) *writer {
 				panic(r)
 			}
 		}()
-		c := openCache(dir)
+		c := shared
+		if c == nil {
+			c = openCache(dir)
+		}
 		_, _, err := c.Put(id, w.rd)
 		if err != nil {
 			w.done <- "error: " + err.Error()
@@ -196,6 +200,7 @@ func (w *writer) wait() string {
 // ---------------------------------------------------------------------------------------------- histories
 
 type world struct {
+	shared   *cache.DiskCache // non-nil: every store of this history goes through this one handle
 	dir      string
 	keys     []ID
 	contents [][]byte
@@ -279,15 +284,30 @@ func lookup(dir string, op string, id ID) Res {
 }
 
 // run executes one op against the real directory, filling in Res, T and Diff
+func (w *world) handle() *cache.DiskCache {
+	if w.shared != nil {
+		return w.shared
+	}
+	return openCache(w.dir)
+}
+
 func (w *world) run(op *Op) {
 	switch op.Op {
 	case "Put":
-		c := openCache(w.dir)
-		_, _, err := c.Put(w.keys[op.K], bytes.NewReader(w.contents[op.X]))
+		c := w.handle()
+		out, _, err := c.Put(w.keys[op.K], bytes.NewReader(w.contents[op.X]))
 		must(err)
 		op.T = entryStamp(w.dir, w.keys[op.K])
+		// what runner.writeCacheReader's caller does next: after Put returned nil, use the file of OutputFile(out)
+		// without any validation. Read through the plain path (OutputFile would also touch the mtime).
+		data, rerr := os.ReadFile(fileOf(w.dir, out, "d"))
+		if rerr != nil {
+			op.Res = Res{Kind: "put-output-missing"}
+		} else {
+			op.Res = Res{Kind: "bytes", Data: ints(data)}
+		}
 	case "Begin":
-		wr := startWriter(w.dir, w.keys[op.K], w.contents[op.X])
+		wr := startWriter(w.dir, w.shared, w.keys[op.K], w.contents[op.X])
 		wr.key = op.K
 		w.writers[op.W] = wr
 		st := wr.wait()
@@ -326,7 +346,7 @@ func (w *world) run(op *Op) {
 			st, _ := os.Stat(af)
 			mt = st.ModTime()
 		}
-		c := openCache(w.dir)
+		c := w.handle()
 		_, _, perr := c.Put(w.keys[op.K], bytes.NewReader(w.contents[op.X]))
 		must(perr)
 		if err != nil {
@@ -487,6 +507,7 @@ func runHist(work string, seed uint64, nrandom int, maxops int, thorough bool, o
 		cands = append(cands, Path{"d", h})
 	}
 
+	sharedNext := false
 	newCase := func(kind string, premise bool, body func(g *gen)) {
 		// clean the directory
 		for _, p := range cands {
@@ -494,10 +515,14 @@ func runHist(work string, seed uint64, nrandom int, maxops int, thorough bool, o
 		}
 		os.Remove(filepath.Join(dir, "trim.txt"))
 		w := &world{dir: dir, keys: keys, contents: pool, cands: cands, last: map[Path]string{}, writers: map[int]*writer{}}
+		if sharedNext {
+			w.shared = openCache(dir)
+		}
 		g := &gen{rnd: rnd, w: w}
 		body(g)
 		g.finishWriters()
-		c := Case{Kind: kind, PremiseOK: premise, Ops: g.ops}
+		c := Case{Kind: kind, Shared: sharedNext, PremiseOK: premise, Ops: g.ops}
+		sharedNext = false
 		// stray files
 		known := map[string]bool{}
 		for _, p := range cands {
@@ -702,8 +727,38 @@ func runHist(work string, seed uint64, nrandom int, maxops int, thorough bool, o
 			g.lookups(0)
 		})
 	}
+	// two goroutines of ONE process sharing ONE cache handle store the same content under two action ids: A is
+	// paused mid-copy; B's Put returns nil while A is still paused; the file named by OutputFile(out) must then be
+	// complete (the runner hands that path on without validation), and lookups must be sound
+	for _, x := range []int{2, 9} {
+		for j := 0; j < len(pool[x]); j++ {
+			j, x := j, x
+			sharedNext = true
+			newCase("same-handle-writers", true, func(g *gen) {
+				wa, bl := g.begin(0, x)
+				for i := 0; i < j && bl; i++ {
+					bl = g.adv(wa)
+				}
+				g.put(1, x) // Res of Put = content of OutputFile(out) right after Put returned nil
+				g.lookups(1)
+				g.do(Op{Op: "Get", K: 1, X: -1})
+				g.put(2, x)
+				if j%2 == 0 {
+					for bl {
+						bl = g.adv(wa)
+					}
+				} else if bl {
+					g.crash(wa)
+				}
+				g.lookups(0)
+				g.lookups(1)
+				g.lookups(2)
+			})
+		}
+	}
 	// ---- random histories
 	for i := 0; i < nrandom; i++ {
+		sharedNext = i%3 == 1
 		newCase("random", true, func(g *gen) {
 			// restrict to a few contents so that collisions of names happen
 			n := 4 + rnd.Intn(maxops-3)
